@@ -178,17 +178,99 @@ func addrPaths(info *types.Info, fd *ast.FuncDecl, recv types.Object) (paths map
 			break
 		}
 		id, ok := root.(*ast.Ident)
-		if !ok || recv == nil || info.ObjectOf(id) != recv {
+		if !ok || recv == nil {
 			foreign = append(foreign, ue)
 			return true
 		}
 		s := exprString(e)
-		s = strings.TrimPrefix(s, id.Name+".")
+		if info.ObjectOf(id) != recv {
+			// a pointer-typed local that denotes part of the receiver: the value variable of a
+			// range over a slice of pointers rooted at the receiver, or `v := recv.path` of
+			// pointer type. (A struct-typed local is a copy: its address is foreign.)
+			base, ok := localRootedAt(info, fd, info.ObjectOf(id), recv, 0)
+			if !ok {
+				foreign = append(foreign, ue)
+				return true
+			}
+			s = base + strings.TrimPrefix(s, id.Name)
+		}
+		s = strings.TrimPrefix(s, recvName(recv)+".")
 		s = indexRE.ReplaceAllString(s, "[]")
 		paths[s] = ue.Pos()
 		return true
 	})
 	return paths, foreign
+}
+
+func recvName(recv types.Object) string {
+	if recv == nil {
+		return ""
+	}
+	return recv.Name()
+}
+
+// localRootedAt resolves a pointer-typed local variable to the receiver-rooted
+// expression it aliases: `for _, v := range recv.p` (elements are pointers) gives
+// "recv.p[]", `v := recv.p[i]` gives "recv.p[i]".
+func localRootedAt(info *types.Info, fd *ast.FuncDecl, v, recv types.Object, depth int) (string, bool) {
+	if v == nil || depth > 3 {
+		return "", false
+	}
+	if _, isPtr := v.Type().Underlying().(*types.Pointer); !isPtr {
+		return "", false
+	}
+	rooted := func(e ast.Expr) (string, bool) {
+		r := unparen(e)
+		for {
+			switch x := r.(type) {
+			case *ast.SelectorExpr:
+				r = unparen(x.X)
+				continue
+			case *ast.IndexExpr:
+				r = unparen(x.X)
+				continue
+			case *ast.StarExpr:
+				r = unparen(x.X)
+				continue
+			}
+			break
+		}
+		id, ok := r.(*ast.Ident)
+		if !ok {
+			return "", false
+		}
+		if info.ObjectOf(id) == recv {
+			return exprString(e), true
+		}
+		base, ok := localRootedAt(info, fd, info.ObjectOf(id), recv, depth+1)
+		if !ok {
+			return "", false
+		}
+		return base + strings.TrimPrefix(exprString(e), id.Name), true
+	}
+	res, found := "", false
+	ast.Inspect(fd.Body, func(n ast.Node) bool {
+		switch n := n.(type) {
+		case *ast.RangeStmt:
+			if id, ok := n.Value.(*ast.Ident); ok && info.ObjectOf(id) == v {
+				if base, ok := rooted(n.X); ok {
+					res, found = base+"[]", true
+				}
+			}
+		case *ast.AssignStmt:
+			if n.Tok == token.DEFINE && len(n.Lhs) == len(n.Rhs) {
+				for i, l := range n.Lhs {
+					if id, ok := l.(*ast.Ident); ok && info.ObjectOf(id) == v {
+						if base, ok := rooted(n.Rhs[i]); ok {
+							res, found = base, true
+						}
+					}
+				}
+			}
+		}
+		return true
+	})
+	return res, found
 }
 
 func ruleOPS1(c *Ctx) []Obligation {
@@ -216,11 +298,105 @@ func ruleOPS1(c *Ctx) []Obligation {
 	return obs
 }
 
+// opsDistinctSlots: when Operands() fills its result by index (ops[IDX] = &slot)
+// inside loops, IDX must advance with every enclosing loop: it mentions that
+// loop's index variable, or a variable that is assigned inside that loop's body
+// (a running offset). Otherwise every iteration of that loop writes the same
+// result positions and earlier slots are overwritten. Append-only methods are
+// trivially distinct.
+func (c *Ctx) opsDistinctSlots(info *types.Info, ut *userType) Obligation {
+	o := Obligation{Key: typeKey(ut.n) + " Operands result positions are distinct", Pos: c.pos(ut.fd.Pos()), Verdict: OK, Detail: "slots are appended"}
+	pm := buildParents(ut.fd.Body)
+	resType := "[]*" + pkgVAL + ".Value"
+	filled := 0
+	ast.Inspect(ut.fd.Body, func(n ast.Node) bool {
+		as, ok := n.(*ast.AssignStmt)
+		if !ok || len(as.Lhs) != 1 || o.Verdict != OK {
+			return true
+		}
+		ix, ok := unparen(as.Lhs[0]).(*ast.IndexExpr)
+		if !ok || types.TypeString(info.TypeOf(ix.X), nil) != resType {
+			return true
+		}
+		filled++
+		mentioned := map[types.Object]bool{}
+		ast.Inspect(ix.Index, func(m ast.Node) bool {
+			if id, ok := m.(*ast.Ident); ok {
+				if obj := info.ObjectOf(id); obj != nil {
+					mentioned[obj] = true
+				}
+			}
+			return true
+		})
+		for p := pm[as]; p != nil; p = pm[p] {
+			var body *ast.BlockStmt
+			var loopVars []types.Object
+			switch l := p.(type) {
+			case *ast.RangeStmt:
+				body = l.Body
+				if id, ok := l.Key.(*ast.Ident); ok && id.Name != "_" {
+					loopVars = append(loopVars, info.ObjectOf(id))
+				}
+			case *ast.ForStmt:
+				body = l.Body
+				if init, ok := l.Init.(*ast.AssignStmt); ok {
+					for _, lh := range init.Lhs {
+						if id, ok := lh.(*ast.Ident); ok {
+							loopVars = append(loopVars, info.ObjectOf(id))
+						}
+					}
+				}
+			default:
+				continue
+			}
+			advances := false
+			for _, v := range loopVars {
+				if mentioned[v] {
+					advances = true
+				}
+			}
+			if !advances {
+				// a mentioned variable assigned / incremented inside this loop's body
+				ast.Inspect(body, func(m ast.Node) bool {
+					switch m := m.(type) {
+					case *ast.AssignStmt:
+						if m == as {
+							return true
+						}
+						for _, lh := range m.Lhs {
+							if id, ok := unparen(lh).(*ast.Ident); ok && mentioned[info.ObjectOf(id)] && m.Tok != token.DEFINE {
+								advances = true
+							}
+						}
+					case *ast.IncDecStmt:
+						if id, ok := unparen(m.X).(*ast.Ident); ok && mentioned[info.ObjectOf(id)] {
+							advances = true
+						}
+					}
+					return true
+				})
+			}
+			if !advances {
+				o.Verdict = VIOL
+				o.Pos = c.pos(as.Pos())
+				o.Detail = fmt.Sprintf("the result position %s does not change from one iteration of the loop at %s to the next (it mentions neither the loop's index nor an offset advanced in its body): later iterations overwrite the slots stored by earlier ones, which then have no position in the operand list", exprString(ix.Index), c.pos(p.Pos()))
+				break
+			}
+		}
+		return true
+	})
+	if o.Verdict == OK && filled > 0 {
+		o.Detail = fmt.Sprintf("%d index-filled position(s), each advancing with every enclosing loop", filled)
+	}
+	return o
+}
+
 func ruleOPS2(c *Ctx) []Obligation {
 	var obs []Obligation
 	info := c.pkg(pkgIR).TypesInfo
 	for _, ut := range c.userTypes() {
 		tkey := typeKey(ut.n)
+		obs = append(obs, c.opsDistinctSlots(info, ut))
 		o := Obligation{Key: tkey + " Operands slots are live", Pos: c.pos(ut.fd.Pos()), Verdict: OK}
 		got, foreign := addrPaths(info, ut.fd, ut.recv)
 		switch {
@@ -571,6 +747,39 @@ func ruleEQ2(c *Ctx) []Obligation {
 			if r, ok := k.fd.Body.List[len(k.fd.Body.List)-1].(*ast.ReturnStmt); ok && len(r.Results) == 1 && exprString(r.Results[0]) == "false" {
 				lastFalse = true
 			}
+		}
+		// guard-clause form: v, ok := u.(*K); if !ok { return false }
+		if asserted && !lastFalse {
+			ast.Inspect(k.fd.Body, func(n ast.Node) bool {
+				is, ok := n.(*ast.IfStmt)
+				if !ok || is.Else != nil || len(is.Body.List) != 1 {
+					return true
+				}
+				ue, ok := unparen(is.Cond).(*ast.UnaryExpr)
+				if !ok || ue.Op != token.NOT {
+					return true
+				}
+				okID, isID := unparen(ue.X).(*ast.Ident)
+				r, isRet := is.Body.List[0].(*ast.ReturnStmt)
+				if !isID || !isRet || len(r.Results) != 1 || exprString(r.Results[0]) != "false" {
+					return true
+				}
+				// ok is the second result of an assertion to this kind
+				okObj := info.ObjectOf(okID)
+				ast.Inspect(k.fd.Body, func(m ast.Node) bool {
+					as, isAs := m.(*ast.AssignStmt)
+					if !isAs || len(as.Lhs) != 2 || len(as.Rhs) != 1 {
+						return true
+					}
+					id2, isID2 := as.Lhs[1].(*ast.Ident)
+					ta, isTA := unparen(as.Rhs[0]).(*ast.TypeAssertExpr)
+					if isID2 && isTA && ta.Type != nil && info.ObjectOf(id2) == okObj && namedOf(info.TypeOf(ta.Type)) == k.n {
+						lastFalse = true
+					}
+					return true
+				})
+				return true
+			})
 		}
 		switch {
 		case asserted && lastFalse:
